@@ -164,7 +164,9 @@ func (rm *ResponseManager) abortRequest(ctx context.Context, requestID graphsync
 		if ipldutil.IsContextCancelErr(err) {
 			response.responseStream.ClearRequest()
 			rm.terminateRequest(requestID)
-			rm.cancelledListeners.NotifyCancelledListeners(response.peer, response.request)
+			if response.subscriber.reportOutcome(outcomeCancelled) {
+				rm.cancelledListeners.NotifyCancelledListeners(response.peer, response.request)
+			}
 			return nil
 		}
 		if err == queryexecutor.ErrNetworkError {
@@ -264,6 +266,7 @@ func (rm *ResponseManager) newRequest(ctx context.Context, p peer.ID, request gs
 		signals:        signals,
 		startTime:      time.Now(),
 		responseStream: responseStream,
+		subscriber:     subscriber,
 	}
 
 	// setup query for processing
@@ -423,7 +426,9 @@ func (rm *ResponseManager) finishTask(task *peertask.Task, p peer.ID, err error)
 	}
 
 	if ipldutil.IsContextCancelErr(err) {
-		rm.cancelledListeners.NotifyCancelledListeners(p, response.request)
+		if response.subscriber.reportOutcome(outcomeCancelled) {
+			rm.cancelledListeners.NotifyCancelledListeners(p, response.request)
+		}
 		rm.terminateRequest(requestID)
 		return
 	}
